@@ -753,3 +753,44 @@ func TestGowpReplay(t *testing.T) {
 }
 `, true
 }
+
+// --- published state: a getter racing with the late render path (C10) -----------------------
+
+func init() {
+	replayHarnesses = append(replayHarnesses,
+		replayHarness{match: prefixMatch("static/published-reads:(*Bar)."), pkgDir: ".", render: renderPublishedRace, race: true,
+			class: func(P *Program, ob *Obligation) string { return "getter-vs-late-render" }})
+}
+
+// A finished bar stays on screen (and is rendered by the late path) while another bar runs;
+// the getter named by the obligation is called on it in a loop, under the race detector.
+func renderPublishedRace(P *Program, ob *Obligation) (string, bool) {
+	name := strings.TrimPrefix(ob.Name, "static/published-reads:(*Bar).")
+	if name == "" || strings.ContainsAny(name, " ./") {
+		return "", false
+	}
+	return strings.Replace(`package mpb
+
+import (
+	"io"
+	"testing"
+	"time"
+)
+
+// A finished bar keeps being rendered while another bar runs; a getter on the finished bar
+// reads the published state.
+func TestGowpReplay(t *testing.T) {
+	p := New(WithOutput(io.Discard), WithAutoRefresh(), WithRefreshRate(time.Millisecond))
+	a := p.AddBar(1)
+	b := p.AddBar(100)
+	a.Increment()
+	a.Wait()
+	deadline := time.Now().Add(500 * time.Millisecond)
+	for time.Now().Before(deadline) {
+		_ = a.Completed()
+	}
+	b.Abort(false)
+	p.Wait()
+}
+`, "a.Completed()", "a."+name+"()", 1), true
+}
